@@ -2,6 +2,7 @@ package main
 
 import (
 	"go/token"
+	"strings"
 
 	"golang.org/x/tools/go/ssa"
 )
@@ -216,7 +217,7 @@ func init() {
 		Rules: []func(*Ctx){func(c *Ctx) {
 			c.describe("C14.a", "dom: the retention filter precedes the store on ingest (see C01.b)")
 			ruleC01b(c, "C14.a")
-		}, func(c *Ctx) { ruleC14b(c, "C14.b") }, func(c *Ctx) { ruleC14c(c, "C14.c") }, func(c *Ctx) { ruleC07b(c, "C14.d") }, func(c *Ctx) { ruleMergeExpiry(c, "C14.e") }},
+		}, func(c *Ctx) { ruleC14b(c, "C14.b") }, func(c *Ctx) { ruleC14c(c, "C14.c") }, func(c *Ctx) { ruleC07b(c, "C14.d") }, func(c *Ctx) { ruleMergeExpiry(c, "C14.e") }, func(c *Ctx) { ruleC14f(c, "C14.f") }},
 	})
 }
 
@@ -273,4 +274,33 @@ func ruleMergeExpiry(c *Ctx, rule string) {
 		c.check(rule, "Sequence.Merge discards the older operand only if its newest period is expired", ci.i.Pos(), fromUntil && !viaArith, "the compared time is the operand's Until()", "the early return that discards the older operand compares a time derived by period arithmetic (the operand's oldest end) with truncateBefore: an on-disk series that merely has an expired tail is dropped whole when its key gets new data, live periods included")
 	}
 	c.floor(rule, "expiry early-outs in Sequence.Merge", n, 1)
+}
+
+// ruleC14f: the retention period a table is declared with is the one that is applied.
+func ruleC14f(c *Ctx, rule string) {
+	c.describe(rule, "reg (who-writes): no function of the module assigns TableOpts.RetentionPeriod — it is taken as declared (schema/options); a 'normalised' value (rounded down to whole periods, clamped) makes the ingest filter and every flush drop points that are still inside the declared retention window")
+	n := 0
+	for _, fn := range c.P.ModFns {
+		if strings.HasPrefix(pkgOf(fn), "z/cmd") || strings.HasPrefix(pkgOf(fn), "z/testsupport") {
+			continue
+		}
+		for _, st := range fieldStores(fn, "z.TableOpts.RetentionPeriod") {
+			n++
+			c.touch(fn)
+			c.bad(rule, stableName(topOf(fn))+" assigns TableOpts.RetentionPeriod", st.Pos(), "the declared retention period is overwritten (e.g. truncated to a multiple of the resolution): data is rejected on ingest and removed by flushes although it is younger than the declared retention")
+		}
+	}
+	if n == 0 {
+		c.ok(rule, "TableOpts.RetentionPeriod is never assigned by the module", token.NoPos, "it is only read (truncateBefore, CreateTable's validation, the default window)")
+	}
+	// positive control: it is read where the boundary is computed
+	if tb := c.need(rule, "(*z.table).truncateBefore"); tb != nil {
+		reads := false
+		for _, in := range instrs(tb) {
+			if v, ok := in.(ssa.Value); ok && isFieldLoad(v, "z.TableOpts.RetentionPeriod") {
+				reads = true
+			}
+		}
+		c.check(rule, "truncateBefore reads the declared RetentionPeriod", tb.Pos(), reads, "t.RetentionPeriod", "the retention boundary is not computed from TableOpts.RetentionPeriod")
+	}
 }
